@@ -82,6 +82,10 @@ NiShape* toStripsSameTriangles(NifFile& nif, NiShape* shape, Rng& rng);
 // of every SSE partition (Has Faces = 0), as files written by other tools have it.  Returns the number of partitions changed; the model has to
 // be saved and loaded again to obtain the state a reader of such a file is in.
 int dropPartitionFaces(NifFile& nif);
+// Stores the faces of every mapped-index partition (OB/FO3/SK) as triangle strips instead of a triangle list, the way older exporters
+// write them: per triangle a strip with or without a degenerate lead-in/tail, or two triangles stitched by degenerates. The counter
+// follows the file convention (sum of strip length - 2, degenerates included). Same triangles, other encoding. Returns partitions changed.
+int stripPartitions(NifFile& nif, Rng& rng);
 
 // attaches a NiTexturingProperty whose slots (a seeded subset of the ten, never empty) name fresh NiSourceTexture blocks; OB / FO3 models
 void addTexturingProperty(NifFile& nif, NiShape* shape, Rng& rng, const std::vector<std::string>& paths);
